@@ -67,3 +67,19 @@ package tlstcp
 //@   ensures n == mangos.OptionNoDelay ==> isnil(result1) && result0 == iface(true)
 //@
 // ---- end generated transport option contracts ----
+//@
+//@ func (tlsTran).NewDialer
+//@   ghost info = result at call:Info#1
+//@   ensures isnil(result1) ==> !isnil(result0) && cast("*dialer", result0).proto.Self == info.Self && cast("*dialer", result0).proto.Peer == info.Peer && cast("*dialer", result0).proto.SelfName == info.SelfName && cast("*dialer", result0).proto.PeerName == info.PeerName
+//@
+//@ func (tlsTran).NewListener
+//@   ghost info = result at call:Info#1
+//@   ensures isnil(result1) ==> !isnil(result0) && cast("*listener", result0).proto.Self == info.Self && cast("*listener", result0).proto.Peer == info.Peer && cast("*listener", result0).proto.SelfName == info.SelfName && cast("*listener", result0).proto.PeerName == info.PeerName
+//@
+//@ func (*dialer).Dial
+//@   before call:NewConnPipe#1 assert arg1.Self == d.proto.Self && arg1.Peer == d.proto.Peer && arg1.SelfName == d.proto.SelfName && arg1.PeerName == d.proto.PeerName
+//@   before call:Start#1 assert arg0 == p
+//@
+//@ func (*listener).Listen$1
+//@   before call:NewConnPipe#1 assert arg1.Self == l.proto.Self && arg1.Peer == l.proto.Peer && arg1.SelfName == l.proto.SelfName && arg1.PeerName == l.proto.PeerName && arg0 == conn
+//@   before call:Start#1 assert arg0 == p
